@@ -149,7 +149,9 @@ def transpose(self, *dims):
 
     result = self.values.transpose(newshape)
     newaxes = [self.axes[i] for i in newshape]
-    return self._constructor(result, newaxes, **self.attrs)
+    newobj = self._constructor(result, newaxes)
+    newobj.attrs.update(self.attrs) # not as keyword arguments: a key may be named like a parameter ('values', 'axes')
+    return newobj
 
 def swapaxes(self, axis1, axis2):
     """ Swap two axes
@@ -309,7 +311,9 @@ def repeat(self, values, axis=None):
     newaxes[idx] = newaxis
 
     # Update values and axes
-    return self._constructor(newvalues, newaxes, **self.attrs)
+    newobj = self._constructor(newvalues, newaxes)
+    newobj.attrs.update(self.attrs)
+    return newobj
 
 
 def newaxis(self, name, values=None, pos=0):
@@ -385,7 +389,8 @@ def newaxis(self, name, values=None, pos=0):
     axes.insert(pos, axis)
 
     # create new object
-    newobj = self._constructor(newvalues, axes, **self.attrs)
+    newobj = self._constructor(newvalues, axes)
+    newobj.attrs.update(self.attrs)
 
     # If values is provided, repeat the array along values
     if values is not None:
@@ -440,7 +445,9 @@ def squeeze(self, axis=None):
         res = self.values.squeeze(idx)
         newaxes = [ax for ax in self.axes if ax.name != name or ax.size != 1] 
 
-    return self._constructor(res, newaxes, **self.attrs)
+    newobj = self._constructor(res, newaxes)
+    newobj.attrs.update(self.attrs)
+    return newobj
 
 def _unflatten_dims(dims):
     """ ['a','b,c','d'] ==> ['a','b','c','d']
@@ -552,7 +559,9 @@ def reshape(self, *newdims, **kwargs):
     assert len(newdims_unflattened) == len(set(newdims_unflattened)), "must not contain duplicate axes !"
 
     # (rename copies held by a new object: unflatten() may have returned self, whose Axis objects must not be renamed)
-    o = o._constructor(o.values, [ax for ax in o.axes], **o.attrs)
+    attrs = o.attrs
+    o = o._constructor(o.values, [ax for ax in o.axes])
+    o.attrs.update(attrs)
     for i, ax in enumerate(o.axes):
         if ',' in ax.name:
             ax = ax.copy()
@@ -770,7 +779,8 @@ def flatten(self, *dims, **kwargs):
     newvalues = self.values.reshape(newshape)
 
     # Define the new array
-    new = self._constructor(newvalues, newaxes, **self.attrs)
+    new = self._constructor(newvalues, newaxes)
+    new.attrs.update(self.attrs)
 
     return new
 
@@ -809,7 +819,9 @@ def unflatten(self, axis=None):
     newvalues = self.values.reshape(newshape)
     newaxes = self.axes[:axis] + group.axes + self.axes[axis+1:]
 
-    return self._constructor(newvalues, newaxes, **self.attrs)
+    newobj = self._constructor(newvalues, newaxes)
+    newobj.attrs.update(self.attrs)
+    return newobj
 
 ungroup = deprecated_func(unflatten, 'ungroup')
 
